@@ -18,6 +18,7 @@ import (
 	"time"
 
 	"ariga.io/atlas/sql/migrate"
+	"ariga.io/atlas/sql/sqltool"
 
 	_ "github.com/mattn/go-sqlite3"
 
@@ -179,6 +180,50 @@ func (w *Work) WriteDir(sub string, files map[string]string) error {
 		}
 	}
 	return Rehash(p)
+}
+
+// WriteDirFormat is WriteDir for a directory of another tool's format (opened by the CLI with
+// ?format=<format>); the sum file is the one that format's directory type computes.
+func (w *Work) WriteDirFormat(sub, format string, files map[string]string) error {
+	if format == "" {
+		return w.WriteDir(sub, files)
+	}
+	p := w.Path(sub)
+	os.RemoveAll(p)
+	if err := os.MkdirAll(p, 0o755); err != nil {
+		return err
+	}
+	for n, c := range files {
+		if err := os.WriteFile(filepath.Join(p, n), []byte(c), 0o644); err != nil {
+			return err
+		}
+	}
+	var (
+		d   migrate.Dir
+		err error
+	)
+	switch format {
+	case "golang-migrate":
+		d, err = sqltool.NewGolangMigrateDir(p)
+	case "goose":
+		d, err = sqltool.NewGooseDir(p)
+	case "flyway":
+		d, err = sqltool.NewFlywayDir(p)
+	case "dbmate":
+		d, err = sqltool.NewDBMateDir(p)
+	case "liquibase":
+		d, err = sqltool.NewLiquibaseDir(p)
+	default:
+		return fmt.Errorf("unknown directory format %q", format)
+	}
+	if err != nil {
+		return err
+	}
+	sum, err := d.Checksum()
+	if err != nil {
+		return err
+	}
+	return migrate.WriteSumFile(d, sum)
 }
 
 // Rehash recomputes atlas.sum with the library (not through the CLI under test paths).
